@@ -5,7 +5,7 @@ import numpy as np
 import nets
 
 PID = "C10"
-THEOREMS = ["ucat_seed_in", "ucat_seed_notin", "ucat_map_spec", "ucat_area_spec", "gain_def", "ucat_missing_empty", "seg_spec", "gen_ucat_area_eq"]
+THEOREMS = ["ucat_seed_in", "ucat_seed_notin", "ucat_map_spec", "ucat_area_spec", "gain_def", "ucat_missing_empty", "seg_spec", "gen_ucat_area_eq", "lstsq_optimal", "lstsq_denominator_nonzero_iff", "lstsq_exact_line", "lstsq_two_points"]
 RULE = ("loop-free closed graphs on n<=4 cells (n<=5 thorough) x outlet lists with gaps (missing entries), integer "
         "areas, hand and depths, through subgrid.ucat_area / ucat_volume / segment_length / segment_average / "
         "segment_median in both directions with and without river masks; random D8 rasters to 8x8 through "
@@ -58,6 +58,15 @@ def cases(tier, rng):
     for t in range(100 if tier == "quick" else 1000):
         ds = nets.random_forest(rng, rng.randint(2, 40), p_nodata=rng.choice([0, 0.1]))
         yield from _kernel_cases(ds, rng, "rand")
+    # the least-squares kernel behind the channel slopes, on integer points with strictly increasing abscissae (distances)
+    for t in range(150 if tier == "quick" else 1500):
+        m_ = rng.randint(2, 9)
+        xs = sorted(rng.sample(range(0, 60), m_))
+        ys = [rng.randint(-20, 40) for _ in range(m_)]
+        if rng.random() < 0.2:      # points on a line
+            a_, b_ = rng.randint(-3, 3), rng.randint(-5, 5)
+            ys = [a_ * x + b_ for x in xs]
+        yield {"k": 1006, "args": [xs, ys], "group": "lstsq"}
     for t in range(80 if tier == "quick" else 800):
         nr, nc = rng.randint(2, 8), rng.randint(2, 8)
         if rng.random() < 0.25:      # rasters one or two pixels wide / high (round-6 seed: index steps of +-1 are not always east / west)
@@ -101,6 +110,15 @@ def impl(case):
     from implutil import ds_array, idx_list
     from pyflwdir import subgrid
     k, a = case["k"], case["args"]
+    if k == 1006:
+        from pyflwdir import arithmetics
+        xs, ys = np.array(a[0], dtype=np.float64), np.array(a[1], dtype=np.float64)
+        st, v = call_impl(arithmetics.lstsq, xs, ys)
+        if st != "ok":
+            return [[-2], [st]]
+        sl, ic = float(v[0]), float(v[1])
+        mean = abs((ys[0] - ys[-1]) / (xs[0] - xs[-1]))
+        return [_oq([sl, ic, abs(sl), float(mean)], None)]
     if k == 1000:
         return _api(case["call"], a[0])
     ds = a[0]
@@ -262,6 +280,8 @@ def oracle(case, out):
         return ("ucat:unexpected-exception", f"{out}")
     if k == 1000:
         return None if out == [[0]] else ("ucat:api", f"{out[1]}")
+    if k == 1006:
+        return None
     ds, outs = a[0], a[1]
     n = len(ds)
     if k in (1001, 1002):
@@ -316,6 +336,19 @@ def oracle(case, out):
 
 def compare(case, i, m):
     k = case["k"]
+    if k == 1006:
+        # binary64 results against the exact rationals of the model: the sums are exact on these small integers, the two
+        # divisions and the product round (the intercept may cancel: absolute tolerance)
+        if not i or i[0] == [-2] or not m or len(m[0]) != len(i[0]):
+            return False
+        iv, mv = i[0], m[0]
+        for j in range(0, len(mv), 3):
+            if iv[j] != 1 or mv[j] != 1:
+                return False
+            a_, b_ = float(Fraction(iv[j + 1], iv[j + 2])), Fraction(mv[j + 1], mv[j + 2])
+            if not (abs(a_ - float(b_)) <= 1e-9 * (1.0 + abs(float(b_)))):
+                return False
+        return True
     if k in (1004, 1005) and i and i[0] != [-2] and m and len(m[0]) == len(i[0]):
         iv, mv = i[0], m[0]
         for j in range(0, len(mv), 3):
